@@ -10,14 +10,14 @@ values and/or decrypt old values before checking them.
 Copyright 2018, 2019, 2020 William W. Kimball, Jr. MBA MSIS
 """
 import sys
-import tempfile
+from io import StringIO
 import argparse
 import secrets
 import string
 import json
 from os import remove, access, R_OK
 from os.path import isfile, exists
-from shutil import copy2, copyfileobj
+from shutil import copy2
 from pathlib import Path
 
 from yamlpath import __version__ as YAMLPATH_VERSION
@@ -307,51 +307,60 @@ def validateargs(args, log):
     if has_errors:
         sys.exit(1)
 
-def save_to_json_file(args, log, yaml_data):
+def save_to_json_file(args, log, yaml_data, rendered=None):
     """Save to a JSON file."""
     log.verbose(
         f"Writing changed data as JSON to {args.yaml_file} with"
         f" indent {args.json_indent}.")
+    if rendered is None:
+        rendered = render_document(args, log, None, yaml_data)
     with open(args.yaml_file, 'w', encoding='utf-8') as out_fhnd:
-        if args.json_indent > -1:
-            json.dump(
-                Parsers.jsonify_yaml_data(yaml_data), out_fhnd,
-                indent=args.json_indent)
-        else:
-            json.dump(
-                Parsers.jsonify_yaml_data(yaml_data), out_fhnd)
+        out_fhnd.write(rendered)
 
-def save_to_yaml_file(args, log, yaml_parser, yaml_data, backup_file):
+def save_to_yaml_file(
+    args, log, yaml_parser, yaml_data, backup_file, rendered=None
+):
     """Save to a YAML file."""
+    # pylint: disable=unused-argument,too-many-arguments
     log.verbose("Writing changed data as YAML to {}.".format(args.yaml_file))
-    with tempfile.TemporaryFile() as tmphnd:
-        with open(args.yaml_file, 'rb') as inhnd:
-            copyfileobj(inhnd, tmphnd)
+    if rendered is None:
+        rendered = render_document(args, log, yaml_parser, yaml_data)
+    with open(args.yaml_file, 'w', encoding='utf-8') as yaml_dump:
+        yaml_dump.write(rendered)
 
-        with open(args.yaml_file, 'w', encoding='utf-8') as yaml_dump:
-            try:
-                yaml_parser.dump(yaml_data, yaml_dump)
-            # Tell pycov to ignore this block because it is impossible to
-            # trigger it for ruamel.yaml versions >0.17.4 yet this project must
-            # continue to support older versions of ruamel.yaml as long as OS
-            # package builders continue to be dependent on them.
-            except AssertionError as ex:    # pragma: no cover
-                yaml_dump.close()
-                tmphnd.seek(0)
-                with open(args.yaml_file, 'wb') as outhnd:
-                    copyfileobj(tmphnd, outhnd)
+def render_document(args, log, yaml_parser, yaml_data):
+    """
+    Get the text of the document as it will be written.
 
-                # No sense in preserving a backup file with no changes
-                if args.backup:
-                    remove(backup_file)
-
-                log.debug(
-                    "yaml_set::save_to_yaml_file:  Assertion error: {}"
-                    .format(ex))
-                log.critical((
-                    "Indeterminate assertion error encountered while"
-                    + " attempting to write updated data to {}.  The original"
-                    + " file content was restored.").format(args.yaml_file), 3)
+    The whole text is produced before any file is opened for writing -- or a
+    backup is taken -- because some changes are found impossible only when
+    the document is serialized (a custom tag on a number, an Anchor name YAML
+    cannot write, a self-referential JSON result):  the file to change would
+    otherwise be left truncated.
+    """
+    rendered = StringIO()
+    if write_document_as_yaml(args.yaml_file, yaml_data):
+        try:
+            yaml_parser.dump(yaml_data, rendered)
+        # Tell pycov to ignore this block because it is impossible to
+        # trigger it for ruamel.yaml versions >0.17.4 yet this project must
+        # continue to support older versions of ruamel.yaml as long as OS
+        # package builders continue to be dependent on them.
+        except AssertionError as ex:    # pragma: no cover
+            log.debug(
+                "yaml_set::render_document:  Assertion error: {}"
+                .format(ex))
+            log.critical((
+                "Indeterminate assertion error encountered while"
+                + " attempting to write updated data to {}.  The original"
+                + " file content was not changed.").format(args.yaml_file), 3)
+    elif args.json_indent > -1:
+        json.dump(
+            Parsers.jsonify_yaml_data(yaml_data), rendered,
+            indent=args.json_indent)
+    else:
+        json.dump(Parsers.jsonify_yaml_data(yaml_data), rendered)
+    return rendered.getvalue()
 
 def docroot_is_flow(yaml_data):
     """Determine whether a document root is in flow (JSON) style."""
@@ -372,15 +381,22 @@ def write_document_as_yaml(output_file_name, yaml_data):
 
     return write_yaml
 
-def save_to_file(args, log, yaml_parser, yaml_data, backup_file):
+def save_to_file(
+    args, log, yaml_parser, yaml_data, backup_file, rendered=None
+):
     """Save as YAML or JSON."""
+    # pylint: disable=too-many-arguments
     if write_document_as_yaml(args.yaml_file, yaml_data):
-        save_to_yaml_file(args, log, yaml_parser, yaml_data, backup_file)
+        save_to_yaml_file(
+            args, log, yaml_parser, yaml_data, backup_file, rendered)
     else:
-        save_to_json_file(args, log, yaml_data)
+        save_to_json_file(args, log, yaml_data, rendered)
 
 def write_output_document(args, log, yaml, yaml_data):
     """Write the updated document to file or STDOUT."""
+    # Know what will be written before anything is touched
+    rendered = render_document(args, log, yaml, yaml_data)
+
     # Save a backup of the original file, if requested
     backup_file = args.yaml_file + ".bak"
     if args.backup:
@@ -393,18 +409,9 @@ def write_output_document(args, log, yaml, yaml_data):
 
     # Save the changed file
     if args.yaml_file.strip() == "-":
-        if write_document_as_yaml(args.yaml_file, yaml_data):
-            yaml.dump(yaml_data, sys.stdout)
-        else:
-            if args.json_indent > -1:
-                json.dump(
-                    Parsers.jsonify_yaml_data(yaml_data), sys.stdout,
-                    indent=args.json_indent)
-            else:
-                json.dump(
-                    Parsers.jsonify_yaml_data(yaml_data), sys.stdout)
+        sys.stdout.write(rendered)
     else:
-        save_to_file(args, log, yaml, yaml_data, backup_file)
+        save_to_file(args, log, yaml, yaml_data, backup_file, rendered)
 
 def _try_load_input_file(args, log, yaml, change_path, new_value):
     """Attempt to load the input data file or abend on error."""
